@@ -160,6 +160,10 @@ func semanticErrors() []declCase {
 	add("service without name", "service {\n  basePath = \"/foo\"\n}\n", true)
 	add("entity status filter unknown", "entity Foo {\n  key fooId key:id62 {\n    primary = true\n  }\n  status ACTIVE\n  query.defaultStatusFilter = [\"NOPE\"]\n}\n", false)
 	add("entity duplicate summary", "entity Foo {\n  key fooId key:id62 {\n    primary = true\n  }\n  status ACTIVE\n  summary A {\n    field x string\n  }\n  summary A {\n    field y string\n  }\n}\n", false)
+	// inline types with an empty block (reported by cmpa2: the front end leaves EnumField.Schema nil): whatever the verdict, positioned
+	add("inline enum with an empty block", "object Foo {\n  field child enum {\n  }\n}\n", false)
+	add("inline object with an empty block", "object Foo {\n  field child object {\n  }\n}\n", false)
+	add("inline oneof with an empty block", "object Foo {\n  field child oneof {\n  }\n}\n", false)
 	add("map without item type", "object Foo {\n  field a map\n}\n", true)
 	add("array without item type", "object Foo {\n  field a array\n}\n", true)
 	add("field without type", "object Foo {\n  field a\n}\n", true)
